@@ -31,6 +31,8 @@ RKIND = {"aes16": "aes", "aes32": "aes", "des3": "des3", "gen16": "gen", "gen20"
 IVS = {0: bytes(16), 1: bytes(range(16)), 2: bytes(range(100, 116))}
 # 4: single-part call with a one-byte buffer first (CKR_BUFFER_TOO_SMALL), then again; 5: multi-part, the Final likewise
 CHUNKS = {0: None, 1: [10 ** 6], 2: [1, 10 ** 6], 3: [15, 17, 1, 10 ** 6], 4: None, 5: [10 ** 6]}
+TMPLS = {"empty": [], "encT": [(K.CKA_ENCRYPT, True)], "encF": [(K.CKA_ENCRYPT, False)], "ktAes": [(K.CKA_KEY_TYPE, K.CKK_AES)],
+         "ktAesEncF": [(K.CKA_KEY_TYPE, K.CKK_AES), (K.CKA_ENCRYPT, False)], "ktDes3": [(K.CKA_KEY_TYPE, K.CKK_DES3)]}
 PEERS = json.load(open(os.path.join(ROOTDIR, "fixtures", "peers.json")))
 
 
@@ -140,19 +142,26 @@ class ValDriver(Harness):
         name, a = parse_call(label)
         return getattr(self, name)(*a)
 
-    def MImport(self, kind, i):
+    def MImportT(self, kind, i, enc, wt, ut):
+        ev = self.MImport(kind, i, enc, wt, ut)
+        ev.update(e="ImportT", enc=enc, wt=wt, ut=ut)
+        return ev
+
+    def MImport(self, kind, i, enc=True, wt="none", ut="none"):
         p, s = self.p, self.s
+        xw = [(K.CKA_WRAP_TEMPLATE, TMPLS[wt])] if wt != "none" else []
+        xu = [(K.CKA_UNWRAP_TEMPLATE, TMPLS[ut])] if ut != "none" else []
         if kind == "rsa":
             r = TK.RSA1024
             rv, pub = p.create_object(s, [(K.CKA_CLASS, K.CKO_PUBLIC_KEY), (K.CKA_KEY_TYPE, K.CKK_RSA), (K.CKA_TOKEN, True),
                                           (K.CKA_MODULUS, r["n"]), (K.CKA_PUBLIC_EXPONENT, r["e"]), (K.CKA_ENCRYPT, True),
-                                          (K.CKA_VERIFY, True), (K.CKA_WRAP, True)])
+                                          (K.CKA_VERIFY, True), (K.CKA_WRAP, True)] + xw)
             rv2, priv = p.create_object(s, [(K.CKA_CLASS, K.CKO_PRIVATE_KEY), (K.CKA_KEY_TYPE, K.CKK_RSA), (K.CKA_TOKEN, True),
                                             (K.CKA_MODULUS, r["n"]), (K.CKA_PUBLIC_EXPONENT, r["e"]),
                                             (K.CKA_PRIVATE_EXPONENT, r["d"]), (K.CKA_PRIME_1, r["p"]), (K.CKA_PRIME_2, r["q"]),
                                             (K.CKA_EXPONENT_1, r["dp"]), (K.CKA_EXPONENT_2, r["dq"]), (K.CKA_COEFFICIENT, r["qi"]),
                                             (K.CKA_DECRYPT, True), (K.CKA_SIGN, True), (K.CKA_UNWRAP, True),
-                                            (K.CKA_SENSITIVE, False), (K.CKA_EXTRACTABLE, True)])
+                                            (K.CKA_SENSITIVE, False), (K.CKA_EXTRACTABLE, True)] + xu)
             ev = dict(e="Import", kind=kind, i=i, rv=rvname(rv or rv2), k=0, v="", ref=h(r["n"] + r["d"]), kcv="", kcvref="")
             if not (rv or rv2):
                 self.nk += 1
@@ -207,7 +216,8 @@ class ValDriver(Harness):
                 ev["k"] = self.nk
             return ev
         val = fixed_key(kind, i)
-        rv, g = p.create_object(s, self.template(kind, b"imp", [(K.CKA_VALUE, val)]))
+        t = [x if x[0] != K.CKA_ENCRYPT else (K.CKA_ENCRYPT, bool(enc)) for x in self.template(kind, b"imp", [(K.CKA_VALUE, val)])]
+        rv, g = p.create_object(s, t + xw + xu)
         ev = dict(e="Import", kind=kind, i=i, rv=rvname(rv), k=0, v="", ref=h(val), kcv="", kcvref="")
         if rv == 0:
             self.nk += 1
@@ -279,7 +289,12 @@ class ValDriver(Harness):
         self.blobs[b] = flip(blob, len(blob) // 2) if how == "flip" else blob[:-3]
         return dict(e="Damage", b=b, how=how)
 
-    def MUnwrap(self, m, w, b):
+    def MUnwrapT(self, m, w, b, e):
+        ev = self.MUnwrap(m, w, b, e)
+        ev.update(e="UnwrapT", te=e)
+        return ev
+
+    def MUnwrap(self, m, w, b, e="T"):
         p, s = self.p, self.s
         kw = self.keys[w]
         wh = kw["h"][1] if kw["kind"] == "rsa" else kw["h"]
@@ -290,9 +305,12 @@ class ValDriver(Harness):
             kind = "gen24"
         before = self.count()
         t = self.priv_template(b"unwrapped") if kind == "rsa" else self.template(kind, b"unwrapped")
+        if kind != "rsa":
+            # what the caller's template says about CKA_ENCRYPT
+            t = [x for x in t if x[0] != K.CKA_ENCRYPT] + ([] if e == "absent" else [(K.CKA_ENCRYPT, e == "T")])
         rv, g = p.unwrap_key(s, self.wrap_mech(m, meta["iv"]), wh, self.blobs[b], t)
         ev = dict(e="Unwrap", m=m, w=w, b=b, rv=rvname(rv), k=0, v="", kcv="", kcvref="", made=self.count() - before,
-                  attrsok=False)
+                  attrsok=False, enc="")
         if rv == 0:
             self.nk += 1
             if kind == "rsa":
@@ -301,7 +319,10 @@ class ValDriver(Harness):
             else:
                 got, ev["kcv"], ev["kcvref"] = self.keyinfo(g, kind)
                 self.keys[self.nk] = dict(h=g, kind=kind, val=got)
-            ev.update(k=self.nk, v=h(got), attrsok=self.attrs_ok(g, b"unwrapped"))
+            rv2, d2 = p.get_attrs(s, g, [K.CKA_ENCRYPT])
+            enc = d2.get(K.CKA_ENCRYPT) if rv2 == 0 else None
+            ev.update(k=self.nk, v=h(got), attrsok=self.attrs_ok(g, b"unwrapped"),
+                      enc="absent" if enc is None else ("T" if enc == b"\x01" else "F"))
         return ev
 
     def priv_template(self, label):
